@@ -80,13 +80,13 @@ CLAIMED = {
  "C14": dict(category="proof", design_ref="7 (C14)",
     text="14 Coq theorems (all closed) generic over every string, default dictionary, well-formed parser table and behaviour of int()/float()/host predicates: faithfulness of "
          "the table-driven parser and of create_transport's dispatch, rejection of missing-required / unknown keyword / untypable value / repeated '=', bracketed (IPv6) hosts, "
-         "USBTMC resource round trip; plus 12 obligations re-proved by vm_compute on every run about the six parser tables REGENERATED from transport.py by a fail-closed ast "
-         "translator. Totality of the real code (no exception class other than the descriptor error escapes) is established by the differential run: ~5.4k grammar-built, "
+         "USBTMC resource round trip; plus 12 obligations re-proved by vm_compute on every run about the parser tables REGENERATED on every run from the LIVE objects of the imported qmi.core.transport (every module-level TransportDescriptorParser instance: interface, positional and keyword specs with type and required flag; constructor signatures and defaults by inspect.signature; the dispatch of create_transport found by probing the real function with recording parsers and constructors), fail closed on anything the model has no "
+         "counterpart for. Totality of the real code (no exception class other than the descriptor error escapes) is established by the differential run: ~5.4k grammar-built, "
          "near-miss and arbitrary descriptors per quick run against real create_transport, the six real parsers and fresh parsers over random tables.",
-    note="Trusted: Coq kernel+vm_compute; hand model of the regex tokeniser/parser/constructor validation; the ast translator (cross-checked against the live table objects); "
+    note="Trusted: Coq kernel+vm_compute; hand model of the regex tokeniser/parser/constructor validation; the live-object translator (no syntactic shape of transport.py is demanded; a syntactic reader is kept as an informational cross-check in the evidence); helper functions (host predicate, validators, _format_resources) are tied by behaviour at their boundaries; keyword tables are compared as maps (order is meaningless); "
          "int(), float(), host syntax and inet_pton are not modelled (real answers are fed to the model); non-Windows branch only. Seven escapes found were repaired by fix: commits; "
          "two USBTMC resource round-trip findings (serial numbers containing ':' or '=') remain open known findings.",
-    technique="generic table-driven Coq theorems + translator-fed reflection + differential fuzzing"),
+    technique="generic table-driven Coq theorems + reflection on tables regenerated from the live parser objects + differential fuzzing"),
  "C15": dict(category="proof", design_ref="7 (C15)",
     text="58 Coq theorems + 8 generated per-packet obligations (all closed) over executable models of the five codecs. Interbus: round trip incl. reserved bytes in data and CRC, framing, "
          "escape inverse, CRC append, rejection/soundness, detection of every single-byte corruption, address matching and bounded retries. USBTMC: write_raw reassembled exactly by a "
@@ -125,7 +125,7 @@ CLAIMED = {
          "C19_method_outcomes. Tie: every RPC method of every class is called on the closed real instance (arguments synthesised from annotations): no transport call may get through, no "
          "resource may be created, the observed outcome must be one the method's program allows.",
     note="Trusted: Coq kernel+vm_compute; the ast translator (validated each run by the fault-injection correspondence and by the closed-method calls; base-class shapes re-checked); the fake transport (real QMI_Transport open/close/_check_is_open logic). "
-         "Assumed and checked where possible: transports refuse I/O when closed (C13's subject; surveyed in the evidence); protocol objects reach the device only through their transport (AST-checked); None-able resource attributes are None when closed (checked on the real class after construction, open/close and every call). I/O statements are "
+         "Assumed and checked where possible: transports refuse I/O when closed (C13's subject; surveyed in the evidence); the model's primitives are checked behaviourally against the real QMI_Instrument and QMI_Transport and every transport subclass on every run (all flag values, hook or resource failing or not); protocol objects reach the device only through their transport (AST-checked); None-able resource attributes are None when closed (checked on the real class after construction, open/close and every call). I/O statements are "
          "abstracted as 'may raise, do not change flag or link'; single device link per instrument; the tclab retry loop is unrolled 3 times. 21 driver defects were found: 4 repaired by "
          "fix: commits, 17 recorded per class as open known findings.",
     technique="effect-language translation + sound/complete abstract post analyser for open/close and a sound outcome/touch analyser (with loops) for RPC methods; per-class and per-method reflection; exhaustive fault-index injection; every RPC method called on the closed real class"),
